@@ -126,6 +126,14 @@ def run (t : Tier) : Emit Unit := do
     let avail2 ← liftGen (randRange 1 184)
     emit "C12" (writeCase h payload false avail2
       (some s!"ok:ntot={min avail2 n}:np={min avail2 n}:{hex (payload.take avail2)}") "write-continuation")
+    -- the redundant length fields of the struct left 0 or stale (HeaderLength, Extension2Length): what is written and
+    -- announced comes from the data
+    match h.optionalHeader with
+    | some o =>
+      if o.hasExtension ∧ o.hasExtension2 ∧ n < 400 then
+        let stale : PESHeader := { h with optionalHeader := some { o with extension2Length := (o.extension2Length + 5) % 128, headerLength := 0 } }
+        emit "C12" (writeCase stale payload true 184 (some s!"ok:ntot={hdrLen + min (184 - hdrLen) n}:np={min (184 - hdrLen) n}:{hex (Spec.pesEncode { h with packetLength := expectLen } 0 (payload.take (min (184 - hdrLen) n)))}") "write-stale-length-fields")
+    | none => pure ()
   -- (7) Duration: single-bit and extreme values
   for v in tsValues do
     for e in [0, 1, 16, 299, 300, 511] do
